@@ -445,6 +445,8 @@ struct Inv {
     /// expected: None = the CLI must reject (non-zero, no run); Some((cycles, budget, state, fe, ff, exit_zero))
     expect: Option<(usize, usize, State, u8, u8, bool)>,
     name: String,
+    /// program text fed through a pipe on standard input (PROGRAM = /dev/stdin and the like)
+    stdin: Option<String>,
 }
 
 fn parse_u8_auto(s: &str) -> Option<u8> {
@@ -499,7 +501,7 @@ fn invocations(dir: &std::path::Path) -> Vec<Inv> {
                 ok &= x == m.bus().output_ff();
             }
         }
-        Inv { args, expect: Some((cycles, n, m.state(), m.bus().output_fe(), m.bus().output_ff(), ok)), name }
+        Inv { args, expect: Some((cycles, n, m.state(), m.bus().output_fe(), m.bus().output_ff(), ok)), name, stdin: None }
     };
     // numeric flags in all three radices incl. the 255/256 boundary
     let tokens = ["0", "17", "0x11", "0b10001", "255", "0xff", "0xFF", "0b11111111", "256", "0x100", "0b100000000", "-1", "0x", "1.5", "0X11", "017"];
@@ -518,7 +520,7 @@ fn invocations(dir: &std::path::Path) -> Vec<Inv> {
                     }
                     v.push(mk(name, 4, &files[4].1, 90, cfg, vec![flag.into(), t.into()], vec![], vec![], None));
                 }
-                None => v.push(Inv { args: vec!["run".into(), files[4].1.clone(), "90".into(), flag.into(), t.into()], expect: None, name }),
+                None => v.push(Inv { args: vec!["run".into(), files[4].1.clone(), "90".into(), flag.into(), t.into()], expect: None, name, stdin: None }),
             }
         }
     }
@@ -628,7 +630,7 @@ fn invocations(dir: &std::path::Path) -> Vec<Inv> {
                     args.extend(["verify".to_string(), "--ff".to_string(), shown.to_string()]);
                     ok = verify == 1;
                 }
-                v.push(Inv { args, expect: Some((cycles, n, m.state(), m.bus().output_fe(), m.bus().output_ff(), ok)), name: format!("argument {} verify={}", name, verify) });
+                v.push(Inv { args, expect: Some((cycles, n, m.state(), m.bus().output_fe(), m.bus().output_ff(), ok)), name: format!("argument {} verify={}", name, verify), stdin: None });
             }
         }
     }
@@ -654,6 +656,25 @@ fn invocations(dir: &std::path::Path) -> Vec<Inv> {
     // a long run of the program that never halts: 70 000 cycles, events beyond 2^16
     v.push(mk("long run".into(), 0, &files[0].1, 70_000, MachineConfig::default(), vec![], vec![65_540], vec![66_000, 69_999], None));
     v.push(mk("long run isr".into(), 3, &files[3].1, 70_000, MachineConfig::default(), vec![], vec![300, 65_536, 65_537], vec![], None));
+    // the program delivered through a pipe: PROGRAM = /dev/stdin or /proc/self/fd/0 (no regular file, still a
+    // readable, valid program), for run and run+verify
+    for p in [1usize, 4] {
+        for path in ["/dev/stdin", "/proc/self/fd/0"] {
+            for verify in 0..3 {
+                let mut inv = mk(format!("piped {} {} verify={}", PROGS[p].0, path, verify), p, path, 60, MachineConfig::default(), vec![], vec![], vec![], None);
+                if verify > 0 {
+                    let ff = match inv.expect { Some(e) => e.4, None => 0 };
+                    let shown = if verify == 1 { ff } else { ff.wrapping_add(1) };
+                    inv.args.extend(["verify".to_string(), "--ff".to_string(), shown.to_string()]);
+                    if let Some(e) = inv.expect.as_mut() {
+                        e.5 = verify == 1;
+                    }
+                }
+                inv.stdin = Some(PROGS[p].1.to_string());
+                v.push(inv);
+            }
+        }
+    }
     // every budget 0..=40 on every program
     for (p, f) in &files {
         for n in 0..=40usize {
@@ -713,15 +734,15 @@ fn invocations(dir: &std::path::Path) -> Vec<Inv> {
         v.push(mk(format!("board-dependent {:?}", flags), 5, &files[5].1, 90, cfg, flags.iter().map(|s| s.to_string()).collect(), vec![], vec![], None));
     }
     // failures: missing file, unparsable program
-    v.push(Inv { args: vec!["run".into(), missing.clone(), "10".into()], expect: None, name: "missing file".into() });
-    v.push(Inv { args: vec!["run".into(), bad_file.display().to_string(), "10".into()], expect: None, name: "unparsable program".into() });
-    v.push(Inv { args: vec!["verify".into(), missing], expect: None, name: "verify missing file".into() });
-    v.push(Inv { args: vec!["verify".into(), bad_file.display().to_string()], expect: None, name: "verify unparsable program".into() });
+    v.push(Inv { args: vec!["run".into(), missing.clone(), "10".into()], expect: None, name: "missing file".into(), stdin: None });
+    v.push(Inv { args: vec!["run".into(), bad_file.display().to_string(), "10".into()], expect: None, name: "unparsable program".into(), stdin: None });
+    v.push(Inv { args: vec!["verify".into(), missing], expect: None, name: "verify missing file".into(), stdin: None });
+    v.push(Inv { args: vec!["verify".into(), bad_file.display().to_string()], expect: None, name: "verify unparsable program".into(), stdin: None });
     v
 }
 
 fn run_inv(bin: &str, inv: &Inv) -> Option<(String, String)> {
-    let out = mc::output_with_timeout(std::process::Command::new(bin).args(&inv.args).env("NO_COLOR", "1").env_remove("CLICOLOR_FORCE"), 20);
+    let out = mc::output_with_timeout_stdin(std::process::Command::new(bin).args(&inv.args).env("NO_COLOR", "1").env_remove("CLICOLOR_FORCE"), 20, inv.stdin.as_ref().map(|s| s.as_bytes()));
     let out = match out {
         Ok(Some(o)) => o,
         Ok(None) => return Some(("process/never-returns".into(), format!("[{}] the command did not finish within 20 s and was killed", inv.name))),
@@ -937,7 +958,7 @@ pub fn run() {
             let _ = std::fs::create_dir_all(&dir);
             let mut invs = invocations(&dir);
             if quick {
-                let keep: Vec<Inv> = invs.iter().enumerate().filter(|(i, v)| v.expect.is_none() || i % 3 == 0 || v.name.contains("verify") || v.name.starts_with("--") || v.name.starts_with("board") || v.name.starts_with("literal") || v.name.starts_with("argument") || v.name.starts_with("verbose") || v.name.starts_with("huge") || v.name.starts_with("long")).map(|(_, v)| v.clone()).collect();
+                let keep: Vec<Inv> = invs.iter().enumerate().filter(|(i, v)| v.expect.is_none() || i % 3 == 0 || v.name.contains("verify") || v.name.starts_with("--") || v.name.starts_with("board") || v.name.starts_with("literal") || v.name.starts_with("argument") || v.name.starts_with("verbose") || v.name.starts_with("huge") || v.name.starts_with("long") || v.name.starts_with("piped")).map(|(_, v)| v.clone()).collect();
                 invs = keep;
             }
             nproc = invs.len() as u64;
